@@ -455,6 +455,50 @@ func doRecover(caller *frame) Val {
 	return Iface{}
 }
 
+// boxFor models the data word the Go runtime produces when a value is
+// converted to an interface: pointer-shaped values are their own identity;
+// other values are boxed, with the runtime's sharing rules (single-byte values,
+// integers < 256, empty string, nil slice use static storage).
+func boxFor(t types.Type, v Val) int64 {
+	switch u := t.Underlying().(type) {
+	case *types.Pointer, *types.Map, *types.Chan, *types.Signature, *types.Interface:
+		return 0
+	case *types.Basic:
+		if u.Kind() == types.UnsafePointer {
+			return 0
+		}
+		if w, _, ok := intInfo(u); ok {
+			if w == 8 {
+				return 0
+			}
+			switch x := v.(type) {
+			case int64:
+				if uint64(x)&mask(w) < 256 {
+					return 0
+				}
+			}
+		}
+		if isBoolT(u) {
+			return 0
+		}
+		if isString(u) {
+			if strLen(v) == 0 {
+				return 0
+			}
+		}
+	case *types.Slice:
+		if s, ok := v.([]Val); ok && s == nil {
+			return 0
+		}
+	case *types.Struct:
+		if u.NumFields() == 0 {
+			return 0
+		}
+	}
+	in.nextBox++
+	return in.nextBox
+}
+
 type continuation int
 
 const (
@@ -494,7 +538,7 @@ func visitInstr(fr *frame, instr ssa.Instruction) continuation {
 		unsupported("SliceToArrayPointer")
 	case *ssa.MakeInterface:
 		v := fr.get(instr.X)
-		fr.set(instr, Iface{t: instr.X.Type(), v: v})
+		fr.set(instr, Iface{t: instr.X.Type(), v: v, box: boxFor(instr.X.Type(), v)})
 	case *ssa.Extract:
 		tup := fr.get(instr.Tuple)
 		checkPoison(tup)
